@@ -173,7 +173,8 @@ func (l *lowerer) typeImport(tn string) {
 func (l *lowerer) enum(e *EnumDef, p []int32) *descriptorpb.EnumDescriptorProto {
 	l.comment(p, e.Comment)
 	d := &descriptorpb.EnumDescriptorProto{Name: proto.String(e.Name)}
-	for _, v := range e.Values {
+	for vi, v := range e.Values {
+		l.comment(append(append([]int32(nil), p...), 2, int32(vi)), v.Comment)
 		vd := &descriptorpb.EnumValueDescriptorProto{Name: proto.String(v.Name), Number: proto.Int32(v.Num)}
 		if v.JSON != nil {
 			vd.Options = &descriptorpb.EnumValueOptions{}
@@ -345,6 +346,7 @@ func (f *File) Lower() *descriptorpb.FileDescriptorProto {
 			seen[im] = true
 		}
 	}
+	l.comment([]int32{2}, f.Comment) // file comment: attached to the package statement
 	if len(l.locs) > 0 || f.Comment != "" {
 		d.SourceCodeInfo = &descriptorpb.SourceCodeInfo{Location: l.locs}
 	}
